@@ -17,6 +17,7 @@ type State struct {
 	ghost  map[string]*Term
 	alloc  *Term
 	ret    []*Term // return values (flow == Return)
+	calls  map[string][]*Term // results of the call sites executed on this path, by call-site name "pkg.F#k" ($ret, $called)
 	noAssume int     // >0 while a specification expression is evaluated: reading must not add facts
 	tmpl   *tmplInfo // non-nil: template state used to define a spec function (heap reads become parameters)
 }
@@ -36,6 +37,12 @@ func (st *State) clone() *State {
 	}
 	for k, v := range st.ghost {
 		n.ghost[k] = v
+	}
+	if len(st.calls) > 0 {
+		n.calls = make(map[string][]*Term, len(st.calls))
+		for k, v := range st.calls {
+			n.calls[k] = v
+		}
 	}
 	n.pc = append([]*Term(nil), st.pc...)
 	n.guards = append([]*Term(nil), st.guards...)
